@@ -29,8 +29,10 @@ func (mr *memdbReleaser) Release() {
 }
 
 func (db *DB) newRawIterator(auxm *memDB, auxt tFiles, slice *util.Range, ro *opt.ReadOptions) iterator.Iterator {
+	verifYield(3)
 	strict := opt.GetStrict(db.s.o.Options, ro, opt.StrictReader)
 	em, fm := db.getMems()
+	verifYield(4)
 	v := db.s.version()
 
 	tableIts := v.getIterators(slice, ro)
